@@ -229,3 +229,17 @@ def reduce_dsdl(case: dict) -> typing.Iterator[dict]:
         c = dict(case)
         c["dsdl"] = {"roots": case["dsdl"]["roots"], "files": {k: v for k, v in files.items() if k != rel}}
         yield c
+
+
+def event_digest(res: dict) -> str:
+    """Digest of one invocation's observable schedule: status, injected fault and the ordered events inside the
+    sandbox (kind, relative path). Content hashes are deliberately not part of it (absolute scratch paths can leak
+    into generated bytes - that is C07's subject - and the scratch directory name is not a scheduler decision)."""
+    import hashlib
+
+    h = hashlib.sha256()
+    h.update(repr((res.get("status"), res.get("fault_fired"))).encode())
+    for e in res.get("events", []):
+        if isinstance(e, list) and len(e) >= 3 and str(e[2]).startswith("@"):
+            h.update(repr((e[1], e[2])).encode())
+    return h.hexdigest()[:16]
